@@ -47,6 +47,7 @@ class World:
         self.reader = ir.Reader()
         self.flips: List[dict] = []
         self.history: List[dict] = []
+        sim.extra["world_history"] = self.history     # oracles that only hold the Sim can look the op records up
         self.on_flip: List[Callable[[dict], None]] = []
         self._last_hint: Optional[bytes] = None
         if backend == "local":
@@ -256,6 +257,7 @@ def exec_op(ctx: Ctx, op: dict, rec: dict) -> Any:
         tx = t.new_transaction().begin()
         tx.append_files([df])
         res["registered"] = True
+        res["registered_g"] = sim.gstep
         if op.get("second"):
             # a SECOND append_files() call in the same transaction, for a file (and maybe a directory) that did not exist
             # when the first call ran
